@@ -145,6 +145,8 @@ structure VBox where
   minH : Rat
   maxH : Option Rat
   isRoot : Bool
+  lines : Nat          -- line boxes of text directly in the box (0 = none)
+  lineH : Rat
   deriving Repr, Inhabited
 
 inductive VTree where
@@ -170,7 +172,7 @@ mutual
       are all the margins of the subtree, which then form ONE collapsed margin.  `none` otherwise. -/
   def thru : VTree → Option (List Rat)
     | .mk v cs =>
-      if v.topBarrier || v.botBarrier || v.minH != 0 then none
+      if v.topBarrier || v.botBarrier || v.minH != 0 || v.lines != 0 then none
       else match cs with
         | [] => if v.height == .auto || v.height == .val 0 then some [v.mt, v.mb] else none
         | _ :: _ =>
@@ -192,7 +194,7 @@ mutual
       of a box and top margin of its first in-flow child, through boxes whose margins collapse
       through), up to the first border/padding/content -/
   def topGroup : VTree → List Rat
-    | .mk v cs => v.mt :: (if v.topBarrier then [] else topList cs)
+    | .mk v cs => v.mt :: (if v.topBarrier || v.lines != 0 then [] else topList cs)   -- line boxes separate the margins
   def topList : List VTree → List Rat
     | [] => []
     | c :: cs =>
@@ -205,7 +207,7 @@ mutual
   /-- margins adjoining the bottom margin of the box, looking into the box: bottom margin of the last
       in-flow child when the box has 'auto' computed height and no bottom border/padding -/
   def botGroup : VTree → List Rat
-    | .mk v cs => (if v.botBarrier || v.height != .auto then [] else botList cs) ++ [v.mb]
+    | .mk v cs => (if v.botBarrier || v.height != .auto || v.lines != 0 then [] else botList cs) ++ [v.mb]
   /-- the last in-flow child that does not collapse through contributes its bottom group, the
       collapsing-through children after it contribute all their margins -/
   def botList : List VTree → List Rat
@@ -229,7 +231,7 @@ mutual
   /-- does the chain "box → first in-flow child → …" that `topGroup` follows meet a box that
       collapses through?  (classification of violations only) -/
   def topThru : VTree → Bool
-    | .mk v cs => if v.topBarrier then false else topThruList cs
+    | .mk v cs => if v.topBarrier || v.lines != 0 then false else topThruList cs
   def topThruList : List VTree → Bool
     | [] => false
     | c :: _ =>
@@ -290,8 +292,10 @@ def heightCheck (v : VBox) (selfThru : Bool) (w : Walk) : List Viol :=
         -- does not collapse with the box's own bottom margin
         p.v.bottom + (if v.botBarrier then collapseSpec (botGroup p ++ w.pending) else 0)
       | none =>
+        -- text: the content is the stack of its line boxes
+        if v.lines != 0 then v.contentTop + (v.lines : Rat) * v.lineH
         -- no in-flow child with a height: margins that collapse through only count between two barriers
-        if v.topBarrier && v.botBarrier then v.contentTop + collapseSpec w.pending else v.contentTop
+        else if v.topBarrier && v.botBarrier then v.contentTop + collapseSpec w.pending else v.contentTop
     expectEq ("auto-height" ++ flags (w.prev.isNone && !w.pending.isEmpty && !v.topBarrier) w.nested ++ (if selfThru then ":collapsed-through-box" else "")) v.idx v.h (clampH (contentBottom - v.contentTop) v.minH v.maxH)
       "used height of an auto-height box (must end at the bottom border edge of its last in-flow child)"
 
@@ -334,7 +338,8 @@ mutual
   def vtree : RBox → LTree → VTree
     | .mk r cs, .mk b ks =>
       .mk { idx := 0, top := b.y + b.mt, mt := b.mt, mb := b.mb, bt := b.bt, pt := b.pt, pb := b.pb, bb := b.bb,
-            h := b.h, height := r.height, minH := r.minH, maxH := r.maxH, isRoot := r.isRoot } (vtreeList cs ks)
+            h := b.h, height := r.height, minH := r.minH, maxH := r.maxH, isRoot := r.isRoot,
+            lines := r.lines, lineH := r.lineH } (vtreeList cs ks)
   def vtreeList : List RBox → List LTree → List VTree
     | c :: cs, k :: ks => vtree c k :: vtreeList cs ks
     | _, _ => []
@@ -342,9 +347,10 @@ end
 
 mutual
   /-- no box of the tree collapses through: every box without children fails the code's own
-      `collapsingThrough` test (it has a height, a min-height, a border or a padding) -/
+      `collapsingThrough` test (it has a height, a min-height, a border or a padding) or contains
+      text; text only in boxes without block children -/
   def solid : RBox → Bool
-    | .mk r cs => (!cs.isEmpty || !r.emptyThrough) && solidList cs
+    | .mk r cs => (!cs.isEmpty || r.lines != 0 || !r.emptyThrough) && (cs.isEmpty || r.lines == 0) && solidList cs
   def solidList : List RBox → Bool
     | [] => true
     | c :: cs => solid c && solidList cs
@@ -396,7 +402,8 @@ mutual
       | none => none
       | some (kids, kv, rest', next) =>
         let v : VBox := { idx := idx, top := b.y + b.mt, mt := b.mt, mb := b.mb, bt := b.bt, pt := b.pt, pb := b.pb, bb := b.bb,
-                          h := b.h, height := u.height, minH := u.minH, maxH := u.maxH, isRoot := isRoot }
+                          h := b.h, height := u.height, minH := u.minH, maxH := u.maxH, isRoot := isRoot,
+                          lines := s.lines, lineH := s.lineH }
         some { tree := .mk v kids, viols := hv ++ kv, rest := rest', next := next }
   def judgeList (cbW : Rat) (cbH : MF) (px : Rat) (idx : Nat) : List Box → List LBox → Option (List VTree × List Viol × List LBox × Nat)
     | [], rest => some ([], [], rest, idx)
